@@ -6,6 +6,8 @@ import (
 	"log"
 	"os"
 
+	"git.defalsify.org/vise.git/logging"
+
 	"verif/harness/checks"
 	"verif/harness/vk"
 )
@@ -19,6 +21,10 @@ func main() {
 	if len(os.Args) > 1 && os.Args[1] == "C19SOLO" {
 		checks.C19Solo(os.Args[2:])
 		return
+	}
+	if os.Getenv("VERIF_TRACED_CHILD") != "" {
+		// the traced build (-tags logtrace) formats every log line; nobody reads them
+		logging.LogWriter = io.Discard
 	}
 	vk.Main(checks.All())
 }
